@@ -4,13 +4,219 @@ the `SensibleMoveMask(u32)` operations, described through `bit m i := m.toNat.te
 -/
 import MemchrModel.Base.Lemmas
 import MemchrModel.Model.Sensible
+import MemchrModel.Proofs.SensibleBits
 
 namespace Memchr.Sensible
 
 open Memchr Bits
 
+/-- well-formed mask of a `bytes`-lane vector: no bit at or above `bytes` -/
+def Wf (bytes : Nat) (m : UInt32) : Prop := m.toNat < 2 ^ bytes
+
+/-- lane `i` is set in mask `m` -/
+def bit (m : UInt32) (i : Nat) : Bool := m.toNat.testBit i
+
+theorem two_pow_le_size {bytes : Nat} (hle : bytes ≤ 32) : 2 ^ bytes ≤ 2 ^ 32 :=
+  Nat.pow_le_pow_right (by decide) hle
+
+theorem bit_lt {bytes : Nat} (m : UInt32) (i : Nat) (hw : Wf bytes m) (hb : bit m i = true) :
+    i < bytes := by
+  have h1 := Nat.ge_two_pow_of_testBit hb
+  have h2 : 2 ^ i < 2 ^ bytes := Nat.lt_of_le_of_lt h1 hw
+  exact (Nat.pow_lt_pow_iff_right (by decide)).mp h2
+
+theorem ne_zero_iff (m : UInt32) : (m != 0) = true ↔ ∃ i, bit m i = true := by
+  constructor
+  · intro h
+    have hne : m.toNat ≠ 0 := by
+      intro h0
+      have : m = 0 := UInt32.toNat_inj.mp (by rw [h0]; rfl)
+      simp [this] at h
+    exact Nat.exists_testBit_of_ne_zero hne
+  · intro ⟨i, hi⟩
+    have : m ≠ 0 := by
+      intro h0; subst h0; simp [bit] at hi
+    simpa using this
+
+theorem toNat_movemask {bytes : Nat} (hle : bytes ≤ 32) (v : Vec) (hv : v.length = bytes) :
+    (msbMask v).toUInt32.toNat = msbMask v := by
+  have h1 := msbMask_lt v
+  rw [hv] at h1
+  have h2 := two_pow_le_size hle
+  show (msbMask v) % 2 ^ 32 = msbMask v
+  exact Nat.mod_eq_of_lt (by omega)
+
+theorem movemask_wf {bytes : Nat} (hle : bytes ≤ 32) (v : Vec) (hv : v.length = bytes) :
+    Wf bytes (msbMask v).toUInt32 := by
+  unfold Wf
+  rw [toNat_movemask hle v hv, ← hv]
+  exact msbMask_lt v
+
+theorem movemask_bit {bytes : Nat} (hle : bytes ≤ 32) (v : Vec) (i : Nat)
+    (hv : v.length = bytes) (hb : v.IsBool) :
+    bit (msbMask v).toUInt32 i = v.lane i := by
+  unfold bit Vec.lane
+  rw [toNat_movemask hle v hv]
+  exact msbMask_testBit_bool v hb i
+
+theorem firstOffset_spec (m : UInt32) (c : Ctr) (hex : ∃ i, bit m i = true) :
+    ∃ k, firstOffset m c = .ok k c ∧ bit m k = true ∧ ∀ j, j < k → bit m j = false := by
+  obtain ⟨i, hi⟩ := hex
+  have hi32 : i < 32 := bit_lt (bytes := 32) m i m.toNat_lt hi
+  obtain ⟨h1, h2⟩ := tz_spec 32 m.toNat ⟨i, hi32, hi⟩
+  exact ⟨tz 32 m.toNat, rfl, h1, h2⟩
+
+theorem lastOffset_spec (m : UInt32) (c : Ctr) (hex : ∃ i, bit m i = true) :
+    ∃ k, lastOffset m c = .ok k c ∧ bit m k = true ∧ ∀ j, k < j → bit m j = false := by
+  have hne : m.toNat ≠ 0 := by
+    obtain ⟨i, hi⟩ := hex
+    intro h0; simp [bit, h0] at hi
+  have hpos := bitLen_pos hne
+  have hle := bitLen_le_of_lt 32 m.toNat m.toNat_lt
+  refine ⟨bitLen m.toNat - 1, ?_, testBit_bitLen_sub_one _ hne, ?_⟩
+  · have e1 : lz 32 m.toNat ≤ 32 := by unfold lz; omega
+    have e2 : 1 ≤ 32 - lz 32 m.toNat := by unfold lz; omega
+    have e3 : 32 - lz 32 m.toNat - 1 = bitLen m.toNat - 1 := by unfold lz; omega
+    unfold lastOffset
+    simp only [M.bind_run, csub_of_le _ e1, M.pure_run, csub_of_le _ e2, e3]
+  · intro j hj
+    exact testBit_of_bitLen_le _ _ (by omega)
+
+theorem clearLSB_spec {bytes : Nat} (m : UInt32) (c : Ctr) (hw : Wf bytes m)
+    (hex : ∃ i, bit m i = true) :
+    ∃ m', clearLSB m c = .ok m' c ∧ Wf bytes m' ∧
+      ∀ k, (bit m k = true ∧ ∀ j, j < k → bit m j = false) →
+        ∀ i, bit m' i = (bit m i && i != k) := by
+  have hne : (m != 0) = true := (ne_zero_iff m).mpr hex
+  have hne' : m ≠ 0 := by simpa using hne
+  have hnat : m.toNat ≠ 0 := by
+    intro h0; apply hne'; exact UInt32.toNat_inj.mp (by rw [h0]; rfl)
+  have h1 : (1 : UInt32) ≤ m := by
+    rw [UInt32.le_iff_toNat_le]; show 1 ≤ m.toNat; omega
+  have hsub : (m - 1).toNat = m.toNat - 1 := by
+    rw [UInt32.toNat_sub_of_le _ _ h1]; rfl
+  have hto : (m &&& (m - 1)).toNat = m.toNat &&& (m.toNat - 1) := by
+    rw [UInt32.toNat_and, hsub]
+  refine ⟨m &&& (m - 1), ?_, ?_, ?_⟩
+  · have : (m == 0) = false := by simpa using hne'
+    simp [clearLSB, this]
+  · unfold Wf; rw [hto]
+    exact Nat.lt_of_le_of_lt Nat.and_le_left hw
+  · intro k ⟨hk, hl⟩ i
+    unfold bit; rw [hto]
+    exact and_pred_testBit k m.toNat hk hl i
+
+theorem toNat_allExceptLS_mask (n : Nat) (hn : n < 32) :
+    (~~~ (((1 : UInt32) <<< n.toUInt32) - 1)).toNat = 2 ^ 32 - 1 - (2 ^ n - 1) := by
+  have hn32 : n.toUInt32.toNat = n := by
+    show n % 2 ^ 32 = n
+    exact Nat.mod_eq_of_lt (by omega)
+  have hpow : 2 ^ n < 2 ^ 32 := Nat.pow_lt_pow_right (by decide) hn
+  have hshl : ((1 : UInt32) <<< n.toUInt32).toNat = 2 ^ n := by
+    rw [UInt32.toNat_shiftLeft, hn32, Nat.mod_eq_of_lt hn]
+    show (1 <<< n) % 2 ^ 32 = 2 ^ n
+    rw [Nat.one_shiftLeft, Nat.mod_eq_of_lt hpow]
+  have h1 : (1 : UInt32) ≤ (1 : UInt32) <<< n.toUInt32 := by
+    rw [UInt32.le_iff_toNat_le, hshl]
+    show 1 ≤ 2 ^ n
+    exact Nat.two_pow_pos n
+  rw [UInt32.toNat_not, UInt32.toNat_sub_of_le _ _ h1, hshl]
+  rfl
+
+theorem allExceptLS_run (n : Nat) (c : Ctr) (hn : n < 32) :
+    allExceptLS n c = .ok (~~~ (((1 : UInt32) <<< n.toUInt32) - 1)) c := by
+  simp [allExceptLS, hn]
+
+theorem mand_allExceptLS_bit (n : Nat) (hn : n < 32) (m : UInt32) (i : Nat) :
+    bit (m &&& ~~~ (((1 : UInt32) <<< n.toUInt32) - 1)) i = (bit m i && decide (n ≤ i)) := by
+  unfold bit
+  rw [UInt32.toNat_and, toNat_allExceptLS_mask n hn, Nat.testBit_and,
+    not_low_mask_testBit n i (by omega)]
+  by_cases hi : i < 32
+  · simp [hi]
+  · have : m.toNat.testBit i = false := by
+      apply Nat.testBit_lt_two_pow
+      exact Nat.lt_of_lt_of_le m.toNat_lt (Nat.pow_le_pow_right (by decide) (by omega))
+    simp [this]
+
+theorem mand_wf {bytes : Nat} (a b : UInt32) (ha : Wf bytes a) : Wf bytes (a &&& b) := by
+  unfold Wf; rw [UInt32.toNat_and]
+  exact Nat.lt_of_le_of_lt Nat.and_le_left ha
+
+theorem mor_wf {bytes : Nat} (a b : UInt32) (ha : Wf bytes a) (hb : Wf bytes b) :
+    Wf bytes (a ||| b) := by
+  unfold Wf; rw [UInt32.toNat_or]
+  exact Nat.or_lt_two_pow ha hb
+
+theorem mor_bit (a b : UInt32) (i : Nat) : bit (a ||| b) i = (bit a i || bit b i) := by
+  unfold bit; rw [UInt32.toNat_or, Nat.testBit_or]
+
+theorem mand_bit (a b : UInt32) (i : Nat) : bit (a &&& b) i = (bit a i && bit b i) := by
+  unfold bit; rw [UInt32.toNat_and, Nat.testBit_and]
+
+theorem will_iff {bytes : Nat} (hle : bytes ≤ 32) (v : Vec) (hv : v.length = bytes)
+    (hb : v.IsBool) :
+    ((msbMask v).toUInt32 != 0) = true ↔ ∃ i, i < bytes ∧ v.lane i = true := by
+  rw [ne_zero_iff]
+  constructor
+  · intro ⟨i, hi⟩
+    refine ⟨i, bit_lt _ i (movemask_wf hle v hv) hi, ?_⟩
+    rw [← movemask_bit hle v i hv hb]; exact hi
+  · intro ⟨i, _, hi⟩
+    exact ⟨i, by rw [movemask_bit hle v i hv hb]; exact hi⟩
+
+theorem allExceptLS_spec {bytes : Nat} (hle : bytes ≤ 32) (n : Nat) (c : Ctr) (hn : n < bytes) :
+    ∃ k, allExceptLS n c = .ok k c ∧
+      ∀ m, Wf bytes m → Wf bytes (m &&& k) ∧ (∀ i, bit (m &&& k) i = true → bit m i = true) ∧
+        (∀ i, n ≤ i → bit (m &&& k) i = bit m i) := by
+  have hn32 : n < 32 := Nat.lt_of_lt_of_le hn hle
+  refine ⟨_, allExceptLS_run n c hn32, ?_⟩
+  intro m hw
+  refine ⟨mand_wf m _ hw, ?_, ?_⟩
+  · intro i hi
+    rw [mand_allExceptLS_bit n hn32 m i] at hi
+    simp at hi; exact hi.1
+  · intro i hni
+    rw [mand_allExceptLS_bit n hn32 m i]; simp [hni]
+
+theorem allExceptLS_zero {bytes : Nat} (c : Ctr) :
+    ∃ k, allExceptLS 0 c = .ok k c ∧
+      ∀ m, Wf bytes m → Wf bytes (m &&& k) ∧ ∀ i, bit (m &&& k) i = bit m i := by
+  refine ⟨_, allExceptLS_run 0 c (by decide), ?_⟩
+  intro m hw
+  refine ⟨mand_wf m _ hw, ?_⟩
+  intro i
+  rw [mand_allExceptLS_bit 0 (by decide) m i]; simp
+
 /-- `Lawful` for the sensible-mask vector types. -/
 def lawful (bytes : Nat) (h : 0 < bytes) (hle : bytes ≤ 32) (hp : ∃ k, bytes = 2 ^ k) :
-    Lawful (impl bytes h) := sorry
+    Lawful (impl bytes h) where
+  bytes_le := hle
+  pow2 := hp
+  align_eq := rfl
+  wf := Wf bytes
+  bit := bit
+  bit_lt := fun m i hw hb => bit_lt m i hw hb
+  movemask_wf := fun v hv _ => movemask_wf hle v hv
+  movemask_bit := fun v i hv hb _ => movemask_bit hle v i hv hb
+  will_iff := fun v hv hb => will_iff hle v hv hb
+  hasNonZero_iff := fun m _ => ne_zero_iff m
+  mor_wf := fun a b ha hb => mor_wf a b ha hb
+  mor_bit := fun a b i _ _ => mor_bit a b i
+  mand_wf := fun a b ha _ => mand_wf a b ha
+  mand_bit := fun a b i _ _ => mand_bit a b i
+  countOnes_eq := fun m hw => popcount_eq bytes m.toNat hw
+  firstOffset_spec := fun m c _ hex => firstOffset_spec m c hex
+  lastOffset_spec := fun m c _ hex => lastOffset_spec m c hex
+  clearLSB_spec := fun m c hw hex => clearLSB_spec m c hw hex
+  allExceptLS_spec := fun n c hn => allExceptLS_spec hle n c hn
+  allExceptLS_zero := fun c => allExceptLS_zero c
+
+def lawful_sse2 : Lawful sse2 := lawful 16 (by decide) (by decide) ⟨4, rfl⟩
+def lawful_avx2 : Lawful avx2 := lawful 32 (by decide) (by decide) ⟨5, rfl⟩
+def lawful_simd128 : Lawful simd128 := lawful 16 (by decide) (by decide) ⟨4, rfl⟩
+def lawful_small2 : Lawful small2 := lawful 2 (by decide) (by decide) ⟨1, rfl⟩
+def lawful_small4 : Lawful small4 := lawful 4 (by decide) (by decide) ⟨2, rfl⟩
+def lawful_small8 : Lawful small8 := lawful 8 (by decide) (by decide) ⟨3, rfl⟩
 
 end Memchr.Sensible
